@@ -26,6 +26,34 @@ C08_TEXT = ("Theorems (hash slice): refinement of the storage-level hash (size m
             "KV / list / set / zset semantics have no theorem and no Lean model yet: C08 is claimed for the hash family only.")
 C08_NOTE = "hash family only, local-deletion layout, one entry per apply event; other types: see C09/C10/C11 oracles"
 
+DATACORE_SET_RULE = ("sessions of 20-100 well-formed SET commands (sadd with repeated members, srem with repeated members, spop with and without count incl. 0 / negative / 5000 / 5001, sclear; scard, sismember, smembers, srandmember with and without count, skeyexist; rarely a 10241-byte member) on 1-6 keys over two tables "
+                     "(names that are prefixes of each other, contain ':', 0x00, 0xff) x 3-9 members (empty, binary, ':'-containing, prefix-related), on a REAL KVNode (real leader-side handlers incl. the sadd/srem/spop pre-checks that answer without raft, proposal, kvStoreSM apply) under the local-deletion layout, mem and pebble engines; "
+                     "EVERY answer line (STATUS incl. local:<reply> / err:<class>, write replies, read replies, the logical dump) is compared with the executable Lean storage model running the real key codec; the C09 invariant oracle runs after a quarter of the writes; non-trivial = answered without an error class; distinct = distinct op lines")
+DATACORE_LIST_RULE = ("sessions of 20-100 well-formed LIST commands (lpush / rpush with 1-4 values, lpop, rpop, lset, ltrim, lclear; llen, lindex, lrange, lkeyexist) on 1-6 keys over two tables x 8 values (empty, binary, ':'-containing) with indexes steered by generator-side length bookkeeping (60% inside -len-1..len, else boundary values -100..100, '+n' forms), a third of the sessions pop-heavy (lists emptied and re-created), "
+                      "on a REAL KVNode (real leader-side handlers incl. preCheckListLength, proposal, kvStoreSM apply) under the local-deletion layout, mem and pebble engines; EVERY answer line is compared with the executable Lean storage model running the real key codec; the C09 invariant oracle runs after a quarter of the writes; non-trivial = answered without an error class; distinct = distinct op lines")
+DATACORE_COLL_TRUST = ["only the local-deletion layout (no versions, no TTL); one entry per apply event; well-formed commands; keys inside the server's limits",
+                       "the abstract codec facts (Z.SetInv.Enc / Z.ListInv.Enc) are unconditional in the theorems and proved of the real codec for admitted keys (table without ':', table and key part < 65536 bytes: Z.SetReal.realEnc / Z.ListReal.realEnc); the server enforces 255 / 10240",
+                       "table key counter, topLargeCollKeys, slow log / metrics are outside the model (not visible in replies); DeleteRange branches (> RangeDeleteNum = 5000 elements) and the > MAX_BATCH_NUM error branches are modelled and proved but not reached by the generator (except spop / srandmember count 5001)",
+                       "list: the repair fixListKey (run by the code when it finds its own meta inconsistent) is not modelled; those branches are proved dead under the invariant"]
+DATACOREZSET_RULE = ("sessions of 25-115 sorted-set commands on 1-3 keys over two tables (names that are prefixes of each other, contain ':', 0x00), members from a pool with empty / binary / ':'-containing / prefix-related / 7-8-9 byte members, "
+                     "scores = half-integers in many spellings (ties frequent), a quarter of the sessions with +-Inf and -0; writes zadd (1-12 pairs, repeated members), zincrby, zrem, zremrangebyrank (boundary / negative / inverted / > MAX_BATCH_NUM ranks), "
+                     "zremrangebyscore, zremrangebylex (open / closed / inverted), zclear; reads zcard zscore zrank zrevrank zrange zrevrange (withscores) zrangebyscore zrevrangebyscore (withscores, limit) zcount zrangebylex (limit) zlexcount zkeyexist; "
+                     "6 % malformed arguments (bad floats incl. nan, bad ints, bad range strings, wrong argc, bad option words); inv after a quarter of the writes and at the end, dump at the end; one entry per apply event, strictly increasing log time, mem (btree) and pebble engines; "
+                     "non-trivial = the real code answered something other than an error; distinct = distinct op lines")
+DATACOREZSET_TRUST = ["only the sorted-set family under the local-deletion layout (no versions, no TTL, header-less meta) is in this executable model; one entry per apply event",
+                      "range iteration = filter of the sorted store + offset/count (the iterator wrapper and the engines are C20's subject)",
+                      "float text <-> bits is modelled for half-integers |k/2| <= 2^52, +-0, +-Inf, NaN patterns (strconv.ParseFloat / FormatFloat 'g' -1 on exactly these); sums of halves are exact; x86 NaN pattern for Inf-Inf",
+                      "the table key counter (IncrTableKeyCount merge) and the top-large-collection statistics are not modelled (not visible through sorted-set commands)",
+                      "the harness's error classifier prints strconv.ParseFloat failures as `notint` (lower-cased match); the model prints the same class"]
+DATACOREZSET_PARTIAL = ["ZINCRBY: the storage function below the NaN guard preserves the invariant under 'the sum is not NaN' (C09Z_inv_zincrby_partial, and false without it: C09Z_inv_zincrby_full_false); the command as the code runs it since fix 82330ea refuses NaN sums and preserves the invariant for every delta (C09Z_inv_zincrby)",
+                        "members longer than MaxSubKeyLen, keys with empty table / empty key part and NaN range bounds are outside the generator (the model answers bad-op)",
+                        "size > MAX_BATCH_NUM / RangeDeleteNum (5000) branches are in the model and in the theorems but not exercised by the generator"]
+DATACOREZSET_ASSUME = ["fewer than 2^63 keys in the store (size round trip)", "table and key part lengths below 65536 (server: 255 / 10240)", "stored scores are non-NaN 64-bit patterns"]
+DATACOREZSET_LEVEL = ("Theorems over the executable storage-level sorted-set model (mirrors rockredis/t_zset.go branch by branch incl. the write-batch discipline; member key -> score bits, score-index key, size meta; the REAL key codec is an instance of the abstract codec facts, proved from the C12 / C12Float theorems): "
+                      "the representation invariant (size = #member keys = #index keys, member<->index bijection with equal scores, meta iff non-empty) is preserved by EVERY write command; corollaries in the property's wording; refinement to member -> score. "
+                      "The model is tied to the real code line by line: real KVNode, real leader-side handlers (ZREM pre-check), real apply path, real read handlers, mem and pebble engines.")
+
+
 CHECKS = {
     'C01': dict(
         gens=['Raft'],
@@ -79,7 +107,7 @@ CHECKS = {
     ),
     'C12': dict(
         gens=['Consts'],
-        props='ZanVerif.Props.C12',
+        props=['ZanVerif.Props.C12', 'ZanVerif.Props.C12Float'],
         protos=[dict(name='codec', quick_seeds=1, thorough_seeds=4),
                 dict(name='isol', mode='oracle', quick_seeds=2, thorough_seeds=3)],
         rule="random tuples over an adversarial byte alphabet (0x00 0xff ':' ';' length bytes), names drawn from a pool and varied by one byte / one-byte extension / truncation so that prefix relations and near-collisions are probed; "
@@ -253,10 +281,13 @@ CHECKS = {
         technique='Lean 4 proof over an abstract batch model + metamorphic exploration of the real apply path',
     ),
     'C08': dict(
-        gens=['Ttl', 'TtlKV'],
-        props=['ZanVerif.Props.C08', 'ZanVerif.Props.C08KV'],
+        gens=['Consts', 'CollConsts', 'Ttl', 'TtlKV'],
+        props=['ZanVerif.Props.C08', 'ZanVerif.Props.C08KV', 'ZanVerif.Props.C08Set', 'ZanVerif.Props.C08List', 'ZanVerif.Props.C08ZSet'],
         protos=[dict(name='datacore', quick_seeds=2, thorough_seeds=2, classes='panic'),
-                dict(name='datacorekv', quick_seeds=2, thorough_seeds=2, classes='panic')],
+                dict(name='datacorekv', quick_seeds=2, thorough_seeds=2, classes='panic'),
+                dict(name='datacoreset', quick_seeds=2, thorough_seeds=2, classes='panic'),
+                dict(name='datacorelist', quick_seeds=2, thorough_seeds=2, classes='panic'),
+                dict(name='datacorezset', quick_seeds=3, thorough_seeds=4, classes='panic')],
         rule=DATACORE_RULE,
         trusted=DATACORE_TRUST,
         partial=['KV (Props/C08KV.lean): C08_kv_refines_partial / C08_kv_run_refines_partial / C08_del_keys_partial carry Z.KVSpec.Conforms; each excluded deviation from redis has a witness theorem C08_dev_* on the executable model (DEL / SETIFEQ / DELIFEQ on a key expired in log time, INCRBY wraps int64, APPEND / SETRANGE with an empty value answer 0, PERSIST answers 1 without TTL, EXPIRE onto an instant <= 0, DEL k k counts twice)', 'everything except hget/hset/hdel', 'duplicate fields inside one command were a genuine defect (fixed) and are outside the model'],
@@ -266,9 +297,12 @@ CHECKS = {
         technique="Lean 4 refinement proof (hash slice) over C12's codec facts",
     ),
     'C09': dict(
-        gens=[],
-        props='ZanVerif.Props.C09',
-        protos=[dict(name='data', mode='oracle', quick_seeds=1, thorough_seeds=1, classes='count-enum-mismatch:'), dict(name='datacore', quick_seeds=1, thorough_seeds=1, classes='count-enum-mismatch:')],
+        gens=['Consts', 'CollConsts'],
+        props=['ZanVerif.Props.C09', 'ZanVerif.Props.C09Set', 'ZanVerif.Props.C09List', 'ZanVerif.Props.C09ZSet'],
+        protos=[dict(name='data', mode='oracle', quick_seeds=1, thorough_seeds=1, classes='count-enum-mismatch:'), dict(name='datacore', quick_seeds=1, thorough_seeds=1, classes='count-enum-mismatch:'),
+                dict(name='datacoreset', quick_seeds=2, thorough_seeds=2, classes='count-enum-mismatch:'),
+                dict(name='datacorelist', quick_seeds=2, thorough_seeds=2, classes='count-enum-mismatch:'),
+                dict(name='datacorezset', quick_seeds=3, thorough_seeds=4, classes='(count-enum-mismatch:|panic)')],
         rule=DATA_RULE,
         trusted=DATA_TRUST,
         partial=['inv preserved by hdel / set / zset / list commands: not yet theorems'],
@@ -383,3 +417,41 @@ CHECKS = {
 # properties not (yet) claimed, with the reason; bin/mkmanifest drops an entry as soon as CHECKS has it
 NOT_APPLICABLE = {p: "check not built yet in this round (design in DESIGN.md §7 %s; to be claimed when its theorem module, tie and oracle run)" % p
                   for p in ['C%02d' % i for i in range(1, 21)]}
+
+# ---- texts of the data-mapping properties after the per-family executable models were merged (hash, KV, set, list, zset)
+_HASH_RULE = CHECKS['C08']['rule']
+_KV_RULE = ("datacorekv / datacorettl: sessions of KV commands (set with EX/NX/XX, setnx, setex, setifeq, delifeq, getset, incr/incrby, append, setrange, expire, persist, del; get, ttl, exists, strlen, mget) and of hash commands with "
+            "hexpire / hpersist / httl / hclear under the value-header (compact) expiry layout on a REAL KVNode, log timestamps placed before/at/after expiry seconds and near the uint32 overflow of the expiry instant, read clock steered independently of the log time; every answer line is compared with the executable Lean models (KVExec, HashTTLExec)")
+CHECKS['C08'].update(
+    rule=_HASH_RULE + " || " + _KV_RULE + " || " + DATACORE_SET_RULE + " || " + DATACORE_LIST_RULE + " || " + DATACOREZSET_RULE,
+    trusted=CHECKS['C08']['trusted'] + DATACORE_COLL_TRUST + DATACOREZSET_TRUST,
+    partial=[x for x in CHECKS['C08']['partial'] if not x.startswith('everything except')] + DATACOREZSET_PARTIAL + [
+        "not modelled (no theorem, no differential run; exercised only by the oracles of C07/C09-C11): bitmap, HyperLogLog, JSON, geo, index commands, *mclear, LTrimFront/LTrimBack, hincrby; table key counter",
+        "hash: HGET/HSET/HDEL have refinement theorems; HMSET, HGETALL, HKEYS, HVALS, HCLEAR are tied by the differential run only",
+        "zset: exclusive score bounds are implemented as x+-1 (deviation from redis: ZRANGEBYSCORE k (1 +inf skips 1.5), witness theorem C08Z_exclusive_bound_witness; stated as a deviation, not claimed as redis behaviour"],
+    assumptions=DATACOREZSET_ASSUME + ["set/list/zset/hash models: local-deletion layout, one entry per apply event, keys inside the server limits"],
+    level_text="Theorems over five executable storage-level models that mirror rockredis branch by branch over the sorted reference store with the REAL key codec "
+               "(hash: HashExec; KV with the value header: KVExec; set: SetExec; list: ListExec; sorted set: ZSetExec/ZSetCmd incl. float text<->bits for half-integers): refinement of every modelled write and read to the plain redis-like "
+               "specification of its type (KV: key -> (value, expiry) with KVSpec; hash: key -> field -> value; set: key -> finite set; list: key -> sequence; zset: member -> score with redis index arithmetic for ZRANGE/ZREVRANGE), "
+               "replies included, with the representation invariant of each type proved reachable-closed. Every deviation from redis the proofs forced out is stated as a witness theorem (C08_dev_*, C08Z_exclusive_bound_witness). "
+               "Each model is tied to the real code line by line: real KVNode, real leader-side handlers (incl. the pre-checks that answer without raft), real proposal and apply path, real read handlers, mem and pebble engines.",
+    level_note="claimed for the five modelled command families (about 75 commands); commands outside them have no theorem (listed under partial); 'behaves like redis' holds up to the listed witness deviations",
+    technique="Lean 4 refinement proofs over executable storage models running the real key codec + line-by-line differential run against a real KVNode",
+)
+CHECKS['C09'].update(
+    rule=CHECKS['C09']['rule'] + " || " + DATACORE_SET_RULE + " || " + DATACORE_LIST_RULE + " || " + DATACOREZSET_RULE,
+    trusted=CHECKS['C09']['trusted'] + DATACORE_COLL_TRUST + DATACOREZSET_TRUST,
+    partial=["hash: invariant preservation is a theorem for HSET; HDEL / HMSET / HCLEAR are covered by the differential run and the oracle",
+             "collections above 5000 elements (DeleteRange / batch-size branches) are in the models and theorems; on the real code they are exercised by protocol data's big-collection session only",
+             "TTL layouts (compact) for set/list/zset: oracle only"],
+    assumptions=DATACOREZSET_ASSUME,
+    level_text="Theorems: for set, list and sorted set the representation invariant (stored size = number of member/element keys = number of index keys; member<->index bijection with equal scores; list head/tail window contiguous; meta present iff non-empty) "
+               "is preserved by EVERY write command of the family (SADD SREM SPOP SCLEAR; LPUSH RPUSH LPOP RPOP LSET LTRIM LCLEAR; ZADD ZREM ZINCRBY* ZREMRANGEBYRANK/SCORE/LEX ZCLEAR) and holds in every reachable state; the property's equalities "
+               "(SCARD=|SMEMBERS|, LLEN=|LRANGE 0 -1|, ZCARD=|ZRANGE|=|ZRANGEBYSCORE -inf +inf|=|ZRANGEBYLEX - +|, each member once with ZSCORE's score, ZRANK=position, xKEYEXIST<=>size>0) are corollaries. Hash: size-meta invariant preserved by HSET. "
+               "The models are tied to the real code line by line (protocols datacore*), and the same equalities are evaluated through read commands after every apply event of the mixed-command sessions of protocol data.",
+    level_note="proved on executable models tied by differential runs; hash beyond HSET and the TTL layouts of collections are oracle-only",
+    technique="Lean 4 invariant proofs over executable storage models + differential run + invariant oracle after every apply event on the real store",
+)
+CHECKS['C12']['partial'] = [x for x in CHECKS['C12']['partial'] if 'C12_float_order' not in x] + [
+    "float scores: order preservation, injectivity modulo +-0 and decoder round trip are now theorems (Props/C12Float.lean, on IEEE bit patterns; NaN excluded, witness of the NaN collision included); Go's float comparison is taken to be the order on those bit patterns for non-NaN values"]
+CHECKS['C12']['trusted'] = [x for x in CHECKS['C12']['trusted'] if 'float scores' not in x] + ["float64 <-> bit pattern conversion (math.Float64bits) and Go's < on non-NaN floats = the order of the modelled bit patterns"]
